@@ -248,6 +248,51 @@ def exit_checks(E, st, kind, retval, is_drop_root=False):
                     sample='%s < %s' % (idx[1], st.maps[mid].len))
 
 
+# panics the crate raises itself (as opposed to panics of user code it calls): explicit panic! / assert! /
+# expect / unwrap, and the checks the compiler or core insert (bounds, overflow, split points)
+OWN_CORE_PANICS = ('slice index out of range', 'index out of range', 'split_at_mut: mid > len',
+                   'swap: index out of bounds', 'expect on None')
+# roots whose own panics are documented and not tied to the refusal of an insertion (or are formatting plumbing)
+REFUSAL_EXEMPT_METHODS = ('get_disjoint_mut', 'get_disjoint_unchecked_mut', 'with_capacity', 'fmt')
+
+
+def own_panic(e):
+    if e[1].startswith('assert:'):
+        # (overflow checks exist in debug builds only; what a wrapped value does in release is judged by the schemas)
+        return 'overflow' not in e[1]
+    if e[1] != 'core':
+        return False
+    nm = e[2]
+    return nm in OWN_CORE_PANICS or nm.startswith('core::panicking::') or nm.endswith('unwrap_failed') \
+        or nm.endswith('expect_failed')
+
+
+def refusal_check(E, body, st):
+    """REFUSAL: the crate itself panics only to refuse a NEW key for which no room is left (some container of
+    the path is full and a complete scan for the key found nothing), or -- Index / IndexMut -- for an absent
+    key.  Any other panic of its own (an assertion in front of the lookup, a stray bounds check) turns a call
+    the reference model answers into a panic."""
+    origin = [e for e in st.events if e and e[0] == 'panic']
+    if not origin or not own_panic(origin[-1]):
+        return
+    if body.name in REFUSAL_EXEMPT_METHODS:
+        return
+    from . import specs
+    key = specs.root_key(body)
+    just = None
+    for mid, full in (origin[-1][3] if len(origin[-1]) > 3 else ()):
+        if full or key[1] in ('Index', 'IndexMut'):
+            just = (mid, 'full' if full else 'indexed')
+            break
+    props = {'C03', 'C07' if (key[0] or '').startswith(('set::', '&set::')) or 'set::' in body.id else 'C01'}
+    E.oblig('REFUSAL', just is not None, 'own-panic',
+            'the call panics (%s: %s) although no full container was scanned completely for a missing key on this '
+            'path: the crate may refuse only a new key that finds no room (or index an absent key)'
+            % (origin[-1][1], origin[-1][2]), 'refuted',
+            sample='panic %s justified by container %s (%s) after a complete miss' % ((origin[-1][2],) + just) if just else None,
+            props=sorted(props))
+
+
 def run_root(E, body, contract=None):
     rr = RootResult(body)
     t0 = time.time()
@@ -325,6 +370,8 @@ def _run_entry(E, body, rr, st, gs, args, contract, first):
             E.in_unwind = (kind == 'unwind')
             try:
                 exit_checks(E, s, kind, v, is_drop)
+                if kind == 'unwind':
+                    refusal_check(E, body, s)
             except Unproven as e:
                 E.violate('SHAPE', 'unproven', 'exit', str(e))
             rr.outcomes.append((kind, s, v))
